@@ -28,6 +28,7 @@ type CheckSpec struct {
 	Replay      string // "native" (default) | "engine"
 	Extra       func(tier string, ev *Evidence) (violations []string, err error) // non-engine side conditions
 	Lockset     bool
+	NoEngineJobs bool // the check's work happens in Extra (C12)
 	Differential int   // number of sample vectors run through engine-concrete and native and compared
 }
 
@@ -458,7 +459,11 @@ func runCheck(spec *CheckSpec, tier string) int {
 			go func(p string) { defer bgWG.Done(); nb.binFor(p) }(p)
 		}
 	}
-	results, err := runJobs(jobs, nw)
+	var results []*JobResult
+	var err error
+	if len(jobs) > 0 {
+		results, err = runJobs(jobs, nw)
+	}
 	if err != nil {
 		fmt.Println("ERROR: engine could not run:", err)
 		bgWG.Wait()
@@ -681,7 +686,7 @@ func runCheck(spec *CheckSpec, tier string) int {
 	if len(agg.engineErrs) > 0 || agg.inconcl > 0 || agg.truncated > 0 || agg.crossBad > 0 || diffBad > 0 {
 		broken = true
 	}
-	if agg.paths == 0 || (agg.asserts == 0 && spec.Extra == nil) {
+	if !spec.NoEngineJobs && (agg.paths == 0 || (agg.asserts == 0 && spec.Extra == nil)) {
 		broken = true
 		agg.engineErrs = append(agg.engineErrs, "vacuous: no path reached an assertion")
 	}
@@ -713,11 +718,13 @@ func runCheck(spec *CheckSpec, tier string) int {
 	cov["rule"] = spec.Rule
 	cov["bounds"] = spec.Bounds[tier]
 	cov["outside_the_claim"] = spec.Outside
-	cov["evaluations"] = agg.paths
-	cov["distinct_nontrivial"] = agg.nontriv
-	cov["jobs"] = len(jobs)
-	cov["obligations"] = agg.asserts
-	cov["discharged"] = agg.discharged
+	if !spec.NoEngineJobs {
+		cov["evaluations"] = agg.paths
+		cov["distinct_nontrivial"] = agg.nontriv
+		cov["jobs"] = len(jobs)
+		cov["obligations"] = agg.asserts
+		cov["discharged"] = agg.discharged
+	}
 	cov["discharged_without_solver"] = agg.trivial
 	cov["inconclusive"] = agg.inconcl
 	cov["solver_queries"] = agg.queries
@@ -754,7 +761,9 @@ func runCheck(spec *CheckSpec, tier string) int {
 	if len(agg.samples) == 0 {
 		agg.samples = append(agg.samples, "no completed path (see violations)")
 	}
-	cov["samples"] = agg.samples
+	if !spec.NoEngineJobs {
+		cov["samples"] = agg.samples
+	}
 	var kf []string
 	for k := range printedKnown {
 		kf = append(kf, k)
